@@ -78,6 +78,32 @@ func InstallLocks() {
 
 func UninstallLocks() { sio.VerifSetLockSink(nil) }
 
+// AliveGs lists the goroutines (by the small ids used in the records) that still exist.
+func AliveGs() []int {
+	buf := make([]byte, 4<<20)
+	n := runtime.Stack(buf, true)
+	out := []int{}
+	mu.Lock()
+	defer mu.Unlock()
+	for _, ln := range strings.Split(string(buf[:n]), "\n") {
+		if !strings.HasPrefix(ln, "goroutine ") {
+			continue
+		}
+		f := strings.Fields(ln)
+		if len(f) < 2 {
+			continue
+		}
+		id, err := strconv.ParseInt(f[1], 10, 64)
+		if err != nil {
+			continue
+		}
+		if g, ok := gids[id]; ok {
+			out = append(out, g)
+		}
+	}
+	return out
+}
+
 var sites = map[uintptr]string{}
 
 // SetFilter restricts which hook events are recorded (nil = all).
